@@ -1562,11 +1562,14 @@ class Interp:
                             and not hasattr(base, name):
                         return self.eval(e.args[2], env)
                     raise
-            if d == "hasattr" and len(e.args) == 2:
+            if d == "hasattr" and len(e.args) == 2 and "hasattr" not in self.ext:
                 base = self.eval(e.args[0], env)
                 name = self.eval(e.args[1], env)
                 if not isinstance(name, str):
                     raise Unsupported("hasattr with non-string name")
+                if isinstance(base, ClassRef) and base.name in self.prog.classes:
+                    return self.prog.resolve_method(base.name, name) is not None or \
+                        self.prog.resolve_attr(base.name, name)[1] is not None or (base.name, name) in self.class_state
                 try:
                     self.getattr(base, name, e, env)
                     return True
